@@ -63,6 +63,16 @@ func GenOAFile(r *R, idx int, o OAOpts) (*ir.Request, []string) {
 		f.Messages = append(f.Messages, a, b)
 		pool = append(pool, P+"OrderA", P+"OrderB")
 	}
+	if o.on("unused_nested", r, 1, 3) {
+		// a reachable message DECLARES a nested type no field uses; that type's own fields reach a
+		// message nothing else refers to: every referenced schema must still be a component
+		tag("unused_nested")
+		fee := &ir.Message{Name: "Fee", Fields: []*ir.Field{{Name: "cents", Number: 1, Kind: "int64"}, {Name: "currency", Number: 2, Kind: "string"}}}
+		policy := &ir.Message{Name: "Policy", Fields: []*ir.Field{{Name: "name", Number: 1, Kind: "string"}},
+			Nested: []*ir.Message{{Name: "Terms", Fields: []*ir.Field{{Name: "restocking_fee", Number: 1, Kind: "message", TypeName: P + "Fee"}, {Name: "days", Number: 2, Kind: "int32"}}}}}
+		f.Messages = append(f.Messages, fee, policy)
+		pool = append(pool, P+"Policy")
+	}
 	if o.on("recursive", r, 1, 3) {
 		tag("recursive")
 		node := &ir.Message{Name: "Node", Fields: []*ir.Field{{Name: "label", Number: 1, Kind: "string"}, {Name: "children", Number: 2, Kind: "message", TypeName: P + "Node", Card: "repeated"},
